@@ -46,6 +46,8 @@ pub enum SVal {
     StructVariant(String, u32, String, Vec<(String, SVal)>),
     /// `Serialize` returns `S::Error::custom(msg)`
     Fail(String),
+    /// a std type whose `Serialize` asks the serializer whether the format is human readable (text vs compact form)
+    Ip([u8; 4]),
 }
 
 impl Serialize for SVal {
@@ -125,6 +127,7 @@ impl Serialize for SVal {
                 q.end()
             }
             SVal::Fail(msg) => Err(S::Error::custom(msg)),
+            SVal::Ip(o) => std::net::Ipv4Addr::new(o[0], o[1], o[2], o[3]).serialize(s),
         }
     }
 }
@@ -206,6 +209,8 @@ pub fn model_image(v: &SVal) -> Image {
             SVal::Struct(_, fs) => fields(fs)?,
             SVal::StructVariant(_, _, var, fs) => tagged(var, fields(fs)?),
             SVal::Fail(_) => return Err(Image::Error),
+            // the self-describing, human-readable form (what serde_json shows)
+            SVal::Ip(o) => Value::String(format!("{}.{}.{}.{}", o[0], o[1], o[2], o[3])),
         })
     }
     match go(v) {
@@ -298,7 +303,7 @@ fn limit_i(d: &mut Dec, min: i128, max: i128) -> i128 {
 
 pub fn gen_sval(d: &mut Dec, depth: u32) -> SVal {
     let scalar_only = depth == 0 || d.exhausted();
-    let k = if scalar_only { d.below(19) } else { d.below(34) };
+    let k = if scalar_only { d.below(19) } else { d.below(35) };
     match k {
         0 => SVal::Bool(d.bool()),
         1 => SVal::I8(limit_i(d, i8::MIN as i128, i8::MAX as i128) as i8),
@@ -393,6 +398,7 @@ pub fn gen_sval(d: &mut Dec, depth: u32) -> SVal {
                 (0..n).map(|_| (d.pick(&FIELDS).to_string(), gen_sval(d, depth - 1))).collect(),
             )
         }
+        33 => SVal::Ip([d.byte(), d.byte(), 0, 1]),
         _ => SVal::Fail(format!("custom failure {}", d.below(9))),
     }
 }
@@ -430,5 +436,6 @@ pub fn kind_name(v: &SVal) -> &'static str {
         SVal::Struct(..) => "struct",
         SVal::StructVariant(..) => "struct_variant",
         SVal::Fail(_) => "fail",
+        SVal::Ip(_) => "human-readable-dependent",
     }
 }
